@@ -12,6 +12,8 @@ from .davdriver import DavSession, SLOTS
 ICS_NAMES = ["a.ics", "b.ics", "c.ics", "d e.ics", "E.ICS.ics", "UP.ICS", "Mixed.Ics",
              "Rene\u0301.ics", "Ren\u00e9.ics"]
 VCF_NAMES = ["c.vcf", "d.vcf", "x y.vcf"]
+# members of other media types (stored as they are, never validated)
+OTHER_NAMES = ["notes.txt", "blob.bin"]
 UIDS = ["uid-1@example.com", "uid-2@example.com", "UID-1@example.com", "uid 3 with space",
         "uid\\,4\\;esc"]
 # further UID shapes (wire form): a long one that a serialiser folds, escapes, a backslash, non-ASCII,
@@ -68,7 +70,7 @@ PROFILES = {
     "C08": {"proppatch": 12, "delete": 14, "reupload": 8, "restart": 5},
     "C09": {"proppatch": 12, "lock": 6, "reupload": 8, "delete": 9, "untyped": 0.45, "len": 36, "put": 40,
             "get": 8, "manynames": True},
-    "C14": {"invalid": 0.3, "reupload": 16, "put": 40, "grammar": 0.65, "ctparams": 0.6},
+    "C14": {"invalid": 0.3, "reupload": 16, "put": 40, "grammar": 0.65, "ctparams": 0.6, "otherfiles": 0.15},
     "C15": {"proppatch": 45, "restart": 8, "mk": 6, "delcoll": 3, "put": 12, "propheavy": True, "propsingle": 0.4},
     "C16": {"mk": 8, "delcoll": 5, "post": 10},
     "C17": {"multiget": 22, "delete": 12, "external": 0.1},
@@ -192,6 +194,7 @@ def run_random_session(seed, prof, frontend="wsgi", prefix="/", backend="tree", 
                         if how == "auto" and k == "addressbook":
                             how = "xmkcol"
                     s.mk(c, k, how=how, props=props)
+        stored_opaque = {}
         ops = [(k, prof[k]) for k in ("put", "post", "delete", "mk", "delcoll", "proppatch",
                                       "restart", "lock", "get", "multiget", "reupload")]
         for _ in range(prof["len"]):
@@ -204,8 +207,19 @@ def run_random_session(seed, prof, frontend="wsgi", prefix="/", backend="tree", 
                 if prof.get("manynames") and not usevcf:
                     names = ICS_NAMES + ["f.ics", "g.ics", "h.ics", "i.ics"]
                 n = rng.choice(names)
-                if rng.random() < prof["invalid"]:
+                if rng.random() < prof.get("otherfiles", 0.08):
+                    # an opaque file; its bytes are sometimes those of a body that is NOT valid as a
+                    # calendar / card (and may come back later under an .ics / .vcf name)
+                    n = rng.choice(OTHER_NAMES)
+                    data = rng.choice(INVALID_ICS[1:] + INVALID_VCF[1:] + [b"plain text \xe2\x98\x83\n" * rng.choice([1, 400, 3000])])
+                    valid = True
+                    stored_opaque.setdefault(c, []).append(data)
+                elif rng.random() < prof["invalid"]:
                     data, valid = rng.choice(INVALID_VCF if usevcf else INVALID_ICS), False
+                    # ... preferably bytes the collection already holds as an opaque file
+                    again = [d for d in stored_opaque.get(c, []) if d in (INVALID_VCF if usevcf else INVALID_ICS)]
+                    if again and rng.random() < 0.6:
+                        data = rng.choice(again)
                 elif rng.random() < prof["grammar"]:
                     # generated object; UIDs from the shared pool so that conflicts still occur
                     # mostly one UID per name (so overwrites succeed), sometimes a pooled UID (conflicts)
@@ -230,7 +244,8 @@ def run_random_session(seed, prof, frontend="wsgi", prefix="/", backend="tree", 
                     ct = gamma.decorate_ct(rng, gamma.content_type_for(n))
                 ext = not fault and rng.random() < prof.get("external", 0.04)
                 s.put(c, n, data, ct=ct, im=im, inm=inm, valid=valid, fault=fault,
-                      chunked=(not ext and rng.random() < 0.2), external=ext)
+                      chunked=(not ext and rng.random() < 0.2), external=ext,
+                      segmented=(not ext and rng.random() < 0.2))
             elif op == "post":
                 usevcf = c == "ab1"
                 data, valid = rng.choice(vcf if usevcf else ics)
